@@ -3,6 +3,7 @@
    scattering_angle_in_yz_plane), over R, written independently of the code.
    All vectors and lengths are PHYSICAL (SI) quantities here.  Definitions only. *)
 From Coq Require Import Reals.
+From Verif.Sem Require Import RInst.
 From Verif.C04 Require Import Vec.
 Open Scope R_scope.
 
